@@ -464,7 +464,12 @@ func (fc *fnCtx) doSlice(ins *ssa.Slice, st *State) {
 		}
 		// slicing a nil slice yields nil
 		t := Ite(Eq(x.T, "nilS"), "nilS", App("mkS", App("sarr", x.T), App("+", App("soff", x.T), lo), App("-", hi, lo), App("-", max, lo)))
-		fc.define(ins, t, ins.Type())
+		d := fc.define(ins, t, ins.Type())
+		if rb, ok := fc.sliceBase[x.T]; ok {
+			fc.sliceBase[d.T] = sliceBaseRec{off: rb.off, delta: App("+", rb.delta, lo)}
+		} else {
+			fc.sliceBase[d.T] = sliceBaseRec{off: App("soff", x.T), delta: lo}
+		}
 	case *types.Basic:
 		hi = App("str.len", x.T)
 		if ins.High != nil {
